@@ -82,6 +82,10 @@ def gen_ws(rng):
         for n in sorted({n for n, t in mods if t in ('normsys', 'histosys')}):
             if rng.random() < 0.3: p2.append({'name': n, 'fixed': True})
         meas.append({'name': 'other', 'config': {'poi': 'mu', 'parameters': p2}})
+    if rng.random() < 0.2:
+        # channel names with dots that share everything before the last dot (regions of one analysis: `reg.lo`, `reg.hi`): each channel
+        # is exported to a file of its own, named after the full channel name
+        for c, tag in zip(chans, ['lo', 'hi', 'mid']): c['name'] = f'reg.{tag}'
     obs = [{'name': c['name'], 'data': [float(rng.randint(0, 150)) for _ in c['samples'][0]['data']]} for c in chans]
     rng.shuffle(obs)
     return {'channels': chans, 'observations': obs, 'measurements': meas, 'version': '1.0.0'}, info
